@@ -49,8 +49,9 @@ Definition lab_ok (s : state) (t : tid) (l : lab) : bool :=
   | TC c, LStart => match c_pc (cth s c) with CStart => true | _ => false end
   | TC c, LRecv => match c_pc (cth s c) with CRecv => true | _ => false end
   | TC c, LAcqD => match c_pc (cth s c) with CAcq _ => true | _ => false end
-  | TC c, LBuild p => match c_pc (cth s c) with CBuild _ (q :: _) => pid_eqb p q | _ => false end
-  | TC c, LSend c' => Nat.eqb c c' && match c_pc (cth s c) with CSendU _ _ _ _ | CSendR _ => true | _ => false end
+  | TC c, LAcqU m => match c_pc (cth s c) with CAcqU _ ((m', _) :: _) => Nat.eqb m m' | _ => false end
+  | TC c, LBuild p => match c_pc (cth s c) with CBuild _ m (i :: _) _ => pid_eqb p (m, i) | _ => false end
+  | TC c, LSend c' => Nat.eqb c c' && match c_pc (cth s c) with CSendU _ _ _ _ _ _ | CSendR _ => true | _ => false end
   | TU u, LStart => match u_pc (uth s u) with UStart => true | _ => false end
   | TU u, LAcqU m => match u_pc (uth s u), u_script (uth s u) with UAcq, (p, _) :: _ => Nat.eqb m (fst p) | _, _ => false end
   | TU u, LBuild p => match u_pc (uth s u) with UBuild q => pid_eqb p q | _ => false end
@@ -99,6 +100,7 @@ Definition check_case (k : case) : bool :=
     && same_set Nat.eqb (actv s) (k_actv k)
     && same_set sub_eqb (subs s) (k_subs k)
     && match dlock s with None => true | Some _ => false end
+    && forallb (fun m => match ulock s m with None => true | Some _ => false end) (seq 0 (length (k_node k)))
   end.
 
 (* diagnosis: first step not followed, the logs / tables of the model at that point *)
